@@ -500,6 +500,10 @@ def call(f, args=(), kws=()):
     args = tuple(args)
     kws = tuple(sorted(kws, key=_k))
     nokw = not kws
+    # isinstance(x, (A, B)) is isinstance(x, A) or isinstance(x, B)
+    if f == ('g', 'isinstance') and nokw and len(args) == 2 and args[1][0] == 'tuple' and len(args[1][1]) >= 2 \
+            and not any(e[0] == 'star' for e in args[1][1]):
+        return nary('or', tuple(('call', f, (args[0], e), ()) for e in args[1][1]))
     # floor / ceil of a true division
     if f in _FLOOR and nokw and len(args) == 1 and args[0][0] == 'div':
         return ('floordiv', args[0][1], args[0][2])
